@@ -2,6 +2,8 @@
 // dRTdAngles against (dR/da)*T. One line per wrong entry:  FAILING-INPUT: dRd<axis>[i,j] ...
 // (the obligation name given on the command line selects which entry must be reported for the replay to count).
 #include "romea_core_common/transform/SmartRotation3D.hpp"
+#include "romea_core_common/geometry/Pose3D.hpp"
+#include "romea_core_common/math/EulerAngles.hpp"
 #include <map>
 #include <set>
 #include <string>
@@ -47,11 +49,46 @@ int main(int argc, char ** argv)
       }
     }
   }
+  // ---- pose transformation: covariance' = J cov J^T with J the Jacobian of the library's own map (central differences) ----
+  auto wrap = [](double d) { while (d > M_PI) d -= 2 * M_PI; while (d < -M_PI) d += 2 * M_PI; return d; };
+  for (int k = 0; k < 60; ++k) {
+    double t[3], a[3];
+    for (int i = 0; i < 3; ++i) { t[i] = ((double)(rng() % 20001) / 10000 - 1) * 1.2; a[i] = ((double)(rng() % 20001) / 10000 - 1) * 1.2; }
+    if (k == 0) { t[0] = 0.5; t[1] = -0.3; t[2] = 0.9; a[0] = 0.3; a[1] = 0.2; a[2] = 0.1; }
+    Eigen::Affine3d A = Eigen::Affine3d::Identity();
+    A.linear() = eulerAnglesToRotation3D(Eigen::Vector3d(t[0], t[1], t[2]));
+    A.translation() = Eigen::Vector3d(1.5, -2.0, 0.7);
+    Pose3D p; p.position = Eigen::Vector3d(1, 2, 3); p.orientation = Eigen::Vector3d(a[0], a[1], a[2]); p.covariance.setZero();
+    Pose3D r0 = A * p;
+    if (std::fabs(std::fabs(wrap(r0.orientation[1])) - M_PI / 2) < 0.1) continue;     // away from gimbal lock after the transform
+    Eigen::Matrix<double, 6, 6> Jfd;
+    for (int c = 0; c < 6; ++c) {
+      Pose3D pp = p, pm = p;
+      if (c < 3) { pp.position[c] += h; pm.position[c] -= h; } else { pp.orientation[c - 3] += h; pm.orientation[c - 3] -= h; }
+      Pose3D rp = A * pp, rm = A * pm;
+      for (int i = 0; i < 3; ++i) { Jfd(i, c) = (rp.position[i] - rm.position[i]) / (2 * h); Jfd(3 + i, c) = wrap(rp.orientation[i] - rm.orientation[i]) / (2 * h); }
+    }
+    for (int c = 0; c < 6; ++c) {
+      p.covariance.setZero(); p.covariance(c, c) = 1;            // covariance' = J(:,c) J(:,c)^T : exposes the column's magnitudes
+      Pose3D r = A * p;
+      for (int i = 0; i < 6; ++i) {
+        double code = std::sqrt(std::max(0.0, r.covariance(i, i))), want_ = std::fabs(Jfd(i, c));
+        if (std::fabs(code - want_) > 1e-5 * (1 + want_)) {
+          char name[64]; snprintf(name, sizeof name, "pose_transform.J[%d,%d]", i, c);
+          if (bad.insert(name).second && printed++ < 80)
+            printf("FAILING-INPUT: %s: transform angles (%.4g, %.4g, %.4g), pose angles (%.4g, %.4g, %.4g), covariance = e%d e%d^T: returned variance of component %d is %.9g, the Jacobian of the library's own map gives %.9g\n",
+                   name, t[0], t[1], t[2], a[0], a[1], a[2], c, c, i, code * code, want_ * want_);
+        }
+      }
+    }
+  }
   if (bad.empty()) { printf("no failing input found: all derivative entries agree with finite differences of R()\n"); return 0; }
   if (!want.empty()) {
     std::string key = want.substr(0, want.find('.'));
     if (want.find("is_derivative_of_R") != std::string::npos || want.find("dRTdAngles") != std::string::npos)
       return bad.count(key) ? 1 : 0;
+    if (want.find("pose_transform.J[") != std::string::npos)
+      return bad.count(want.substr(want.find("pose_transform.J["), want.find(']') - want.find("pose_transform.J[") + 1)) ? 1 : 0;
   }
   return 1;
 }
